@@ -173,7 +173,7 @@ func mkBLS[
 		km, err := getKeys(s, a, kg)
 		if err != nil {
 			if !outside(x0, err, where) {
-				x.Failf("boldyreva/keygen/"+kg.String(), "%s: key generation failed: %s", where, errStr(err))
+				x.Failf("boldyreva/keygen/"+kg.String(), "%s: key generation failed\n    error: %s", where, errStr(err))
 			}
 			return
 		}
@@ -232,7 +232,7 @@ func mkBLS[
 				x.Case(label)
 				out, subErr := proto.C01BoldyrevaSign(v, km.shards, quorum, raw, mode.alg, seed, label, subs, engine.Thorough() || mode.alg == bls.Basic && a.Name == "ord")
 				if out.Refused != nil {
-					x.Failf(fk+"/refused-qualified", "%s: a cosigner constructor refused a QUALIFIED quorum: %s", cw, errsString(out.Errs))
+					x.Failf(fk+"/refused-qualified", "%s: a cosigner constructor refused a QUALIFIED quorum\n    errors: %s", cw, errsString(out.Errs))
 					continue
 				}
 				if len(raw) == 0 {
@@ -247,7 +247,7 @@ func mkBLS[
 				for _, w := range out.Want {
 					if _, ok := out.Sigs[w]; !ok {
 						missing = true
-						x.Failf(fk+"/no-output/"+holderClass(w), "%s: %s obtained no signature: %s", cw, w, errsString(out.Errs))
+						x.Failf(fk+"/no-output/"+holderClass(w), "%s: %s obtained no signature\n    errors: %s", cw, w, errsString(out.Errs))
 					}
 				}
 				if len(out.Sigs) == 0 {
@@ -273,7 +273,7 @@ func mkBLS[
 				if ok, why := refV(mi, first, firstSig); !ok {
 					x.Failf(fk+"/independent-verifier-rejects", "%s: the independent verifier rejects the signature %x: %s", cw, first, why)
 				}
-				// (4) the library's single-party verifier (the object and its CBOR-decoded copy)
+				// (4) the library's single-party verifier
 				vf, err := scheme.Verifier()
 				if err != nil {
 					panic(engine.HarnessError{Msg: err.Error()})
@@ -288,7 +288,7 @@ func mkBLS[
 					return e
 				}
 				if err := libV(mi); err != nil {
-					x.Failf(fk+"/library-verifier-rejects", "%s: the library verifier rejects the signature %x: %v", cw, first, err)
+					x.Failf(fk+"/library-verifier-rejects", "%s: the library verifier rejects the signature %x\n    error: %v", cw, first, err)
 				}
 				// (5) the next message of the alphabet is rejected by both
 				ni := nextMsg(mi)
@@ -329,7 +329,7 @@ func mkBLS[
 				if len(out.Sigs) > 0 {
 					x.Failf(fk+"/unqualified-quorum-signs", "%s: the UNQUALIFIED party set %s obtained a signature", where, idsString(set))
 				} else {
-					x.Failf(fk+"/unqualified-quorum-not-refused-at-construction", "%s: every cosigner constructor accepted the UNQUALIFIED party set %s (aggregation then failed: %s)", where, idsString(set), errsString(out.Errs))
+					x.Failf(fk+"/unqualified-quorum-not-refused-at-construction", "%s: every cosigner constructor accepted the UNQUALIFIED party set %s \n    (aggregation then failed: %s)", where, idsString(set), errsString(out.Errs))
 				}
 			} else {
 				nRef++
